@@ -134,10 +134,11 @@ def page_xml(page_spec, page_id, style='pero', regions_only=False, size=None):
                 n = 12
                 xs = [x0 + (x1 - x0) * i / (n - 1.0) for i in range(n)]
                 tops = [y - 12 - (i * 7 % 5) for i in range(n)]
+                bend = [0, 1, 1, 2, 2, 2, 2, 2, 1, 1, 0, 0] if page_spec.get('curved') else [0] * n
                 out.append('      <TextLine id=%s index="%d">' % (quoteattr(g['id']), j))
                 pts = ['%d,%d' % (round(x), t) for x, t in zip(xs, tops)] + ['%d,%d' % (round(x), y + 4) for x in reversed(xs)]
                 out.append('        <Coords points="%s"/>' % ' '.join(pts))
-                out.append('        <Baseline points="%s"/>' % ' '.join('%d,%d' % (round(x), y) for x in xs))
+                out.append('        <Baseline points="%s"/>' % ' '.join('%d,%d' % (round(x), y + b) for x, b in zip(xs, bend)))
             else:
                 out.append('      <TextLine id=%s index="%d" custom="heights_v2:[%.1f,%.1f]">' % (quoteattr(g['id']), j, g['hsplit'][0], g['hsplit'][1]))
                 out.append('        <Coords points="%d,%d %d,%d %d,%d %d,%d"/>' % (x0, y - 12, x1, y - 12, x1, y + 4, x0, y + 4))
@@ -155,6 +156,8 @@ def paint_text_page(page_spec):
     nl = len(page_spec['lines'])
     width = 80 + 12 * max([ln['blocks'] for ln in page_spec['lines']] + [6])
     height = 60 + 50 * max(1, nl)
+    if page_spec.get('canvas'):
+        height, width = page_spec['canvas']          # same-size pages with different amounts of text
     img = np.full((height, width, 3), 255, dtype=np.uint8)
     for j, ln in enumerate(page_spec['lines']):
         rs = np.random.RandomState(int(ln['seed']) % (2 ** 31))
@@ -163,4 +166,6 @@ def paint_text_page(page_spec):
             if rs.rand() < 0.85:
                 x = 30 + 12 * b
                 img[y - 14:y, x:x + 8] = 0
+                if ln.get('descenders') and rs.rand() < 0.4:
+                    img[y:y + 9, x + 2:x + 5] = 0       # glyph-like descender below the body
     return img
